@@ -25,6 +25,9 @@ pub enum K {
     ClonedVecRef,
     ClonedIter,
     CopiedIter,
+    /// reference-yielding wrapped iterators: the underlying iterators of ClonedIter / CopiedIter (C13 pair runs only)
+    RefIter,
+    RefIterUnk,
 }
 
 pub const ALL_KINDS: [K; 14] = [K::Slice, K::VecRef, K::Vec, K::Array, K::Range, K::IterExact, K::IterUnk, K::IterInexact, K::IterNonFused, K::ClonedSlice, K::CopiedSlice, K::ClonedVecRef, K::ClonedIter, K::CopiedIter];
@@ -46,14 +49,16 @@ impl K {
             K::ClonedVecRef => "cloned_vecref",
             K::ClonedIter => "cloned_iter",
             K::CopiedIter => "copied_iter",
+            K::RefIter => "ref_iter",
+            K::RefIterUnk => "ref_iter_unk",
         }
     }
     pub fn parse(s: &str) -> Result<K, String> {
-        ALL_KINDS.iter().copied().find(|k| k.name() == s).ok_or(format!("unknown kind '{s}'"))
+        ALL_KINDS.iter().chain([K::RefIter, K::RefIterUnk].iter()).copied().find(|k| k.name() == s).ok_or(format!("unknown kind '{s}'"))
     }
     /// try_get_len is always Some(exact)
     pub fn known_size(&self) -> bool {
-        !matches!(self, K::IterUnk | K::IterInexact | K::IterNonFused | K::CopiedIter)
+        !matches!(self, K::IterUnk | K::IterInexact | K::IterNonFused | K::CopiedIter | K::RefIterUnk)
     }
     /// backed by one position counter, no waiting protocol
     pub fn counter_only(&self) -> bool {
@@ -74,7 +79,7 @@ impl K {
     }
     /// delivers references into the source
     pub fn by_ref(&self) -> bool {
-        matches!(self, K::Slice | K::VecRef)
+        matches!(self, K::Slice | K::VecRef | K::RefIter | K::RefIterUnk)
     }
     pub fn slots(&self) -> bool {
         matches!(self, K::Vec | K::Array)
@@ -820,7 +825,7 @@ where
     let sref: &'static Src = unsafe { &*src };
     let it = subj(|| make(sref));
     let (src_base, src_stride) = match cfg.kind {
-        K::Slice | K::VecRef => (sref.elems.as_ptr() as usize, std::mem::size_of::<Elem>()),
+        K::Slice | K::VecRef | K::RefIter | K::RefIterUnk => (sref.elems.as_ptr() as usize, std::mem::size_of::<Elem>()),
         _ => (0, 0),
     };
     let cx = Rc::new(Ctx {
@@ -1069,6 +1074,8 @@ pub fn make_system(cfg: &SysCfg) -> System {
         K::ClonedVecRef => system(cfg, &|s| s.elems.con_iter().cloned()),
         K::ClonedIter => system(cfg, &|s| ProbeRef::new(s.elems.as_slice(), Hint::Exact).into_con_iter().cloned()),
         K::CopiedIter => system(cfg, &|s| ProbeRef::new(s.nums.as_slice(), Hint::Unbounded).into_con_iter().copied()),
+        K::RefIter => system(cfg, &|s| ProbeRef::new(s.elems.as_slice(), Hint::Exact).into_con_iter()),
+        K::RefIterUnk => system(cfg, &|s| ProbeRef::new(s.elems.as_slice(), Hint::Unbounded).into_con_iter()),
     }
 }
 
